@@ -17,6 +17,7 @@ import (
 	"runtime"
 	"strings"
 	"sync"
+	"sync/atomic"
 	"time"
 
 	"github.com/eclipse/paho.mqtt.golang/packets"
@@ -64,6 +65,7 @@ type mqxStorage struct {
 	manual   bool     // true: notifications wait in `queue` until DeliverOne/DeliverAll
 	queue    []string // keys of pending delete notifications
 	delGate  func(key string)
+	putGate  func(key, value string) // called at the start of every put, outside the lock: may park (a slow store)
 	puts     int
 	deletes  int
 	sentinel int
@@ -101,6 +103,12 @@ func (m *mqxStorage) getPrefix(prefix string, keysOnly bool) (map[string]string,
 }
 
 func (m *mqxStorage) put(key, value string) error {
+	m.mu.Lock()
+	g := m.putGate
+	m.mu.Unlock()
+	if g != nil {
+		g(key, value)
+	}
 	m.mu.Lock()
 	m.store[key] = value
 	m.puts++
@@ -190,6 +198,7 @@ func (m *mqxStorage) Get(key string) (string, bool) {
 func mqxWaitNoGoroutine(d time.Duration, frames ...string) bool {
 	deadline := time.Now().Add(d)
 	buf := make([]byte, 1<<20)
+	pause := 200 * time.Microsecond
 	for {
 		n := runtime.Stack(buf, true)
 		if n == len(buf) {
@@ -206,7 +215,11 @@ func mqxWaitNoGoroutine(d time.Duration, frames ...string) bool {
 		if time.Now().After(deadline) {
 			return false
 		}
-		time.Sleep(200 * time.Microsecond)
+		// a goroutine dump stops the world: poll eagerly at first, then leave the CPU to whoever is waited for
+		time.Sleep(pause)
+		if pause < 5*time.Millisecond {
+			pause += pause / 2
+		}
 	}
 }
 
@@ -324,6 +337,21 @@ func (x *mqxBroker) Close() {
 	case <-done:
 	case <-time.After(5 * time.Second):
 	}
+	// Session.store hands its request over from a goroutine of its own; one that has not been served when the broker's
+	// doStore loop ends would wait in this process for good - and in the way of the goroutine barriers (StoreBarrier) of
+	// every broker made later. Take what still comes.
+	if sm := x.b.sessMgr; sm != nil {
+		ch := sm.storeCh
+		go func() {
+			for {
+				select {
+				case <-ch:
+				case <-time.After(30 * time.Second):
+					return
+				}
+			}
+		}()
+	}
 }
 
 // mqxBlockedOnLock returns the ids of the goroutines that have one of `frames` on their stack and are
@@ -386,16 +414,25 @@ func (x *mqxBroker) AdminDelete(ids ...string) int {
 // channel. First no such goroutine is left (each has been received by doStore), then a sentinel is
 // sent over the same channel: doStore takes it only after the put before it has returned.
 func (x *mqxBroker) StoreBarrier() bool {
-	if !mqxWaitNoGoroutine(10*time.Second, "mqttproxy.(*Session).store") {
+	// a store request that is never served (a session without a store channel, say) stays in this process for good: once
+	// a barrier has failed the later ones do not wait that long again
+	d := 30 * time.Second
+	if mqxStoreStuck.Load() {
+		d = 2 * time.Second
+	}
+	if !mqxWaitNoGoroutine(d, "mqttproxy.(*Session).store") {
+		mqxStoreStuck.Store(true)
 		return false
 	}
 	select {
 	case x.b.sessMgr.storeCh <- SessionStore{key: "verif-sentinel", value: ""}:
 		return true
-	case <-time.After(10 * time.Second):
+	case <-time.After(d):
 		return false
 	}
 }
+
+var mqxStoreStuck atomic.Bool
 
 // Registered returns the connection registered for a client id (nil if none).
 func (x *mqxBroker) Registered(cid string) *Client {
@@ -419,8 +456,11 @@ func (x *mqxBroker) NumClients() int {
 type mqxClient struct {
 	id   string
 	user string // user name sent in CONNECT (lets a Connect pipeline tell connections with one client id apart)
-	conn *net.TCPConn
+	conn net.Conn
 	wmu  sync.Mutex
+	// in-memory connections (mqxDialPipe) only: the broker's end, and the end of Broker.handleConn
+	gate        *mqxGatedConn
+	handlerDone chan struct{}
 
 	mu      sync.Mutex
 	eof     bool
@@ -436,7 +476,121 @@ func mqxDial(addr, id string) (*mqxClient, error) {
 	if err != nil {
 		return nil, err
 	}
-	return &mqxClient{id: id, conn: c.(*net.TCPConn), eofCh: make(chan struct{}), acks: make(chan packets.ControlPacket, 1024)}, nil
+	return &mqxClient{id: id, conn: c, eofCh: make(chan struct{}), acks: make(chan packets.ControlPacket, 1024)}, nil
+}
+
+// mqxGatedConn is the broker's end of an in-memory connection (net.Pipe) that the harness hands to
+// Broker.handleConn, the function the accept loop starts for every connection: a transport without any
+// buffering, whose peer decides when it takes what the broker writes.  While the connection is held
+// (Hold), a Write of the broker announces itself (Reached) and blocks until Release - a client that does
+// not read (full socket buffers), seen from the broker.
+type mqxGatedConn struct {
+	net.Conn
+	mu      sync.Mutex
+	held    bool
+	reached chan struct{}
+	release chan struct{}
+}
+
+func (g *mqxGatedConn) Write(p []byte) (int, error) {
+	g.mu.Lock()
+	if g.held {
+		reached, rel := g.reached, g.release
+		select {
+		case <-reached:
+		default:
+			close(reached)
+		}
+		g.mu.Unlock()
+		select {
+		case <-rel:
+		case <-time.After(120 * time.Second): // never leave a broker goroutine stuck for good
+		}
+	} else {
+		g.mu.Unlock()
+	}
+	return g.Conn.Write(p)
+}
+
+// Hold: from now on the peer takes nothing the broker writes.
+func (g *mqxGatedConn) Hold() {
+	g.mu.Lock()
+	if !g.held {
+		g.held, g.reached, g.release = true, make(chan struct{}), make(chan struct{})
+	}
+	g.mu.Unlock()
+}
+
+// Reached is closed when the broker has started a Write since Hold (and is blocked in it).
+func (g *mqxGatedConn) Reached() <-chan struct{} {
+	g.mu.Lock()
+	defer g.mu.Unlock()
+	return g.reached
+}
+
+// Release: the peer reads again.
+func (g *mqxGatedConn) Release() {
+	g.mu.Lock()
+	if g.held {
+		g.held = false
+		close(g.release)
+	}
+	g.mu.Unlock()
+}
+
+// mqxAsyncConn is the client's end of an in-memory connection: what the client writes is queued and written
+// by a goroutine of its own, as a socket's send buffer would do it (a client that acknowledges from its read
+// loop must not block there until the broker's read loop gets round to reading).
+type mqxAsyncConn struct {
+	net.Conn
+	ch   chan []byte
+	quit chan struct{}
+	once sync.Once
+}
+
+func (a *mqxAsyncConn) Write(p []byte) (int, error) {
+	b := append([]byte(nil), p...)
+	select {
+	case a.ch <- b:
+		return len(p), nil
+	case <-a.quit:
+		return 0, io.ErrClosedPipe
+	}
+}
+
+func (a *mqxAsyncConn) SetWriteDeadline(time.Time) error { return nil }
+
+func (a *mqxAsyncConn) loop() {
+	for {
+		select {
+		case b := <-a.ch:
+			if _, err := a.Conn.Write(b); err != nil {
+				return
+			}
+		case <-a.quit:
+			return
+		}
+	}
+}
+
+func (a *mqxAsyncConn) Close() error {
+	a.once.Do(func() { close(a.quit) })
+	return a.Conn.Close()
+}
+
+// mqxDialPipe connects a raw client over an in-memory connection: the broker's end is served by
+// Broker.handleConn in a goroutine of its own, exactly as Broker.run does for an accepted socket.
+func mqxDialPipe(x *mqxBroker, id string) *mqxClient {
+	srv, cli := net.Pipe()
+	g := &mqxGatedConn{Conn: srv}
+	done := make(chan struct{})
+	go func() {
+		x.b.handleConn(g)
+		close(done)
+	}()
+	a := &mqxAsyncConn{Conn: cli, ch: make(chan []byte, 8192), quit: make(chan struct{})}
+	go a.loop()
+	return &mqxClient{id: id, conn: a, gate: g, handlerDone: done, eofCh: make(chan struct{}), acks: make(chan packets.ControlPacket, 1024)}
 }
 
 func (c *mqxClient) write(p packets.ControlPacket) error {
@@ -450,6 +604,13 @@ func (c *mqxClient) readLoop() {
 	for {
 		p, err := packets.ReadPacket(c.conn)
 		if err != nil {
+			if c.handlerDone != nil {
+				// in-memory connection: "EOF" = handleConn has returned (the teardown is complete), whoever closed first
+				select {
+				case <-c.handlerDone:
+				case <-time.After(60 * time.Second):
+				}
+			}
 			c.mu.Lock()
 			c.eof = true
 			c.mu.Unlock()
@@ -557,6 +718,42 @@ func (c *mqxClient) Subscribe(filters []string, qoss []byte, d time.Duration) bo
 	}, d)
 }
 
+// SubscribeBurst writes one SUBSCRIBE packet per filter and a PINGREQ in a single write and waits for the PINGRESP;
+// returns true if every SUBSCRIBE was acknowledged before it.
+func (c *mqxClient) SubscribeBurst(filters []string, qos byte, d time.Duration) bool {
+	c.DrainAcks()
+	var buf bytes.Buffer
+	want := map[uint16]bool{}
+	for _, f := range filters {
+		sp := packets.NewControlPacket(packets.Subscribe).(*packets.SubscribePacket)
+		sp.Topics, sp.Qoss = []string{f}, []byte{qos}
+		c.mu.Lock()
+		mqxMsgID++
+		sp.MessageID = uint16(mqxMsgID%60000 + 1)
+		c.mu.Unlock()
+		want[sp.MessageID] = true
+		sp.Write(&buf)
+	}
+	packets.NewControlPacket(packets.Pingreq).Write(&buf)
+	c.wmu.Lock()
+	c.conn.SetWriteDeadline(time.Now().Add(10 * time.Second))
+	_, err := c.conn.Write(buf.Bytes())
+	c.wmu.Unlock()
+	if err != nil {
+		return false
+	}
+	pinged := c.wait(func(p packets.ControlPacket) bool {
+		switch a := p.(type) {
+		case *packets.SubackPacket:
+			delete(want, a.MessageID)
+		case *packets.PingrespPacket:
+			return true
+		}
+		return false
+	}, d)
+	return pinged && len(want) == 0
+}
+
 // SubscribeTry sends SUBSCRIBE followed by PINGREQ. The broker answers packets in order and sends
 // no SUBACK for a rejected SUBSCRIBE, so whichever of SUBACK / PINGRESP arrives first decides,
 // without any time-out being involved. Returns (accepted, decided).
@@ -609,6 +806,35 @@ func (c *mqxClient) Unsubscribe(filters []string, d time.Duration) bool {
 	}, d)
 }
 
+// UnsubscribeTry sends UNSUBSCRIBE followed by PINGREQ and waits for the PINGRESP: the UNSUBSCRIBE has been
+// processed then, whether or not the broker answers it (an UNSUBSCRIBE with a malformed filter need not be
+// acknowledged). Returns (acknowledged, decided).
+func (c *mqxClient) UnsubscribeTry(filters []string, d time.Duration) (bool, bool) {
+	c.DrainAcks()
+	up := packets.NewControlPacket(packets.Unsubscribe).(*packets.UnsubscribePacket)
+	up.Topics = filters
+	c.mu.Lock()
+	mqxMsgID++
+	up.MessageID = uint16(mqxMsgID%60000 + 1)
+	c.mu.Unlock()
+	if c.write(up) != nil || c.write(packets.NewControlPacket(packets.Pingreq)) != nil {
+		return false, false
+	}
+	acked, pinged := false, false
+	c.wait(func(p packets.ControlPacket) bool {
+		switch a := p.(type) {
+		case *packets.UnsubackPacket:
+			if a.MessageID == up.MessageID {
+				acked = true
+			}
+		case *packets.PingrespPacket:
+			pinged = true
+		}
+		return pinged
+	}, d)
+	return acked, pinged
+}
+
 // Ping is a barrier: the broker's read loop handles packets in order, so when the PINGRESP is
 // here everything sent before has been processed, and everything the broker queued for this
 // client before answering has been received.
@@ -625,6 +851,37 @@ func (c *mqxClient) Ping(d time.Duration) bool {
 		return false
 	}
 	return c.wait(func(p packets.ControlPacket) bool { _, ok := p.(*packets.PingrespPacket); return ok }, d)
+}
+
+// DrainAcks forgets the acknowledgements read so far.
+func (c *mqxClient) DrainAcks() {
+	for {
+		select {
+		case <-c.acks:
+		default:
+			return
+		}
+	}
+}
+
+// PingCollect sends a PINGREQ - without forgetting what has been read before - and returns the ids of the
+// PUBACKs read up to the PINGRESP: the broker queues what it sends to a client in FIFO order, so a PUBACK that
+// was ever queued before the PINGRESP has been read by then.
+func (c *mqxClient) PingCollect(d time.Duration) ([]int, bool) {
+	if c.write(packets.NewControlPacket(packets.Pingreq)) != nil {
+		return nil, false
+	}
+	var acks []int
+	ok := c.wait(func(p packets.ControlPacket) bool {
+		switch a := p.(type) {
+		case *packets.PubackPacket:
+			acks = append(acks, int(a.MessageID))
+		case *packets.PingrespPacket:
+			return true
+		}
+		return false
+	}, d)
+	return acks, ok
 }
 
 func (c *mqxClient) Puback(id uint16) error {
@@ -732,9 +989,23 @@ func (c *mqxClient) Disconnect() error { return c.write(packets.NewControlPacket
 
 // HalfClose shuts the sending direction: the broker's read loop sees EOF ("the network dropped"),
 // runs its deferred teardown, handleConn returns and closes the connection, which WaitEOF observes.
-func (c *mqxClient) HalfClose() { c.conn.CloseWrite() }
+func (c *mqxClient) HalfClose() {
+	if t, ok := c.conn.(*net.TCPConn); ok {
+		t.CloseWrite()
+		return
+	}
+	c.conn.Close() // an in-memory connection has no half-close: the broker's read loop sees EOF all the same
+}
 
 func (c *mqxClient) WaitEOF(d time.Duration) bool {
+	if c.handlerDone != nil && !c.started {
+		select {
+		case <-c.handlerDone:
+			return true
+		case <-time.After(d):
+			return false
+		}
+	}
 	if !c.started {
 		c.conn.SetReadDeadline(time.Now().Add(d))
 		_, err := io.Copy(io.Discard, c.conn)
